@@ -205,7 +205,7 @@ package roundrobin
 //@ axiom gcd_le_left: forall a int, b int :: a > 0 && b >= 0 ==> GCD(a, b) <= a && GCD(a, b) >= 1
 //@ axiom gcd_divides: forall a int, b int {GCD(a, b)} :: a >= 0 && b >= 0 && GCD(a, b) >= 1 ==> a % GCD(a, b) == 0 && b % GCD(a, b) == 0
 //@ axiom divides_transitive: forall a int, b int, c int {a % b, b % c} :: a >= 0 && b >= 1 && c >= 1 && a % b == 0 && b % c == 0 ==> a % c == 0
-//@ axiom exact_quotient: forall a int, g int {a / g} :: a >= 0 && g >= 1 && a % g == 0 ==> (a / g) * g == a
+//@ lemma exact_quotient: forall a int, g int {a / g} :: a >= 0 && g >= 1 && a % g == 0 ==> (a / g) * g == a
 //@ axiom gcd_le_right: forall a int, b int :: a >= 0 && b > 0 ==> GCD(a, b) <= b && GCD(a, b) >= 1
 
 //@ pred rbWeightsOK(rb *Rebalancer) = forall i int :: 0 <= i && i < len(rb.servers) ==> rb.servers[i].origWeight >= 0 && rb.servers[i].curWeight >= 0 && (rb.servers[i].origWeight > 0 ==> 1 <= rb.servers[i].curWeight && rb.servers[i].curWeight <= max(4096, rb.servers[i].origWeight)) && (rb.servers[i].origWeight == 0 ==> rb.servers[i].curWeight == 0)
